@@ -448,7 +448,11 @@ func vfC06QueuedWrites(t *testing.T, res *vfResult, idx int) {
 // vfC06EarlyDuplicates: the side that finished first writes while the other still waits for the end of the handshake
 // (its last flight, or the acknowledgement of it, was lost), and the network duplicates those early datagrams. What
 // is accepted before the handshake is complete is kept for the first Read calls - once.
-func vfC06EarlyDuplicates(t *testing.T, res *vfResult, idx int) {
+func vfC06EarlyDuplicates(t *testing.T, res *vfResult, idx int) { vfEarlyDataRun(t, res, idx, 3) }
+
+// vfEarlyDataRun: burst = payloads the finishing side writes at once. With a burst beyond what is held for the first Read
+// calls (100) the surplus is lost like any datagram; the handshake must still complete (used by C02 and C08).
+func vfEarlyDataRun(t *testing.T, res *vfResult, idx, burst int) {
 	res.Eval(1)
 	var vs []vfVariant
 	for _, v := range vfC02Variants() {
@@ -462,7 +466,7 @@ func vfC06EarlyDuplicates(t *testing.T, res *vfResult, idx int) {
 	// carrying its ChangeCipherSpec; DTLS 1.3: the server's first `lose` protected datagrams after the client's
 	// Finished flight, i.e. its ACK and ticket); every protected datagram after that is delivered twice
 	lose := 1 + (idx/len(vs))%3
-	id := fmt.Sprintf("early-duplicates/%s/lose%d", v.Name, lose)
+	id := fmt.Sprintf("early-duplicates/%s/lose%d/burst%d", v.Name, lose, burst)
 	var cS, sS *vfMemStore
 	if v.Cfg.Store {
 		cS, sS = vfNewMemStore("c"), vfNewMemStore("s")
@@ -535,14 +539,23 @@ func vfC06EarlyDuplicates(t *testing.T, res *vfResult, idx int) {
 
 		return
 	}
-	p.Early = 3
+	p.Early = burst
 	p.HandshakeTimed(2 * time.Minute)
 	if p.C.Err != nil || p.S.Err != nil {
 		res.Count("early_duplicates_handshake_failed", 1)
+		if burst > 3 {
+			res.NonTrivial(id)
+			res.Violate(fmt.Sprintf("%s:hs-wedged-by-early-application-data:%s", res.Property, vfVerClass(v)),
+				fmt.Sprintf("%s: the side that finished first wrote %d payloads at once while the other still waited for the (once lost) end of the handshake; the handshake did not complete within 2 min: client=%v server=%v", id, burst, p.C.Err, p.S.Err),
+				map[string]any{"early_burst": idx})
+		}
 		p.Close()
 		synctest.Wait()
 
 		return
+	}
+	if burst > 3 {
+		res.Count("early_bursts_survived", 1)
 	}
 	p.C.StartPump()
 	p.S.StartPump()
